@@ -424,9 +424,15 @@ structure MethodSpec where
 /-- `algosdk.abi.Method.get_signature()` -/
 def MethodSpec.signature (m : MethodSpec) : String := sigText m.name m.args m.ret
 
-/-- `ABIReturnSubroutine.method_spec()`: `{"name": self.name(), …}` — the overriding name given
-    to `add_method_handler` is not passed on -/
+/-- `ABIReturnSubroutine.method_spec()`: `{"name": self.name(), …}` (the subroutine's own name) -/
 def Reg.methodSpec (r : Reg) : MethodSpec := ⟨r.fnName, r.args, r.ret⟩
+
+/-- `meth = method_call.method_spec(); if overriding_name is not None: meth.name = overriding_name`
+    (`add_method_handler` since commit caa13a5) -/
+def Reg.registeredSpec (r : Reg) : MethodSpec :=
+  match r.overriding with
+  | some n => { r.methodSpec with name := n }
+  | none => r.methodSpec
 
 structure RouterSt (σ : Type) where
   methods : List MethodSpec := []        -- `Router.methods`
@@ -436,23 +442,37 @@ structure RouterSt (σ : Type) where
 inductive RegErr | duplicate | collision
   deriving DecidableEq, Repr
 
-/-- `Router.add_method_handler` (the MethodConfig part is property C08) -/
-def register {σ} [DecidableEq σ] (sel : String → σ) (st : RouterSt σ) (r : Reg) :
-    Except RegErr (RouterSt σ) :=
+/-- `Router.add_method_handler` (the MethodConfig part is property C08); `specOf` = the entry
+    appended to `Router.methods` -/
+def registerWith {σ} [DecidableEq σ] (specOf : Reg → MethodSpec) (sel : String → σ) (st : RouterSt σ)
+    (r : Reg) : Except RegErr (RouterSt σ) :=
   let method_signature := r.methodSignature
   let method_selector := sel method_signature
   if method_signature ∈ st.sigs then .error .duplicate
   else if method_selector ∈ st.sels then .error .collision
-  else .ok { methods := st.methods ++ [r.methodSpec]
+  else .ok { methods := st.methods ++ [specOf r]
              sigs := st.sigs ++ [method_signature]
              sels := st.sels ++ [method_selector] }
 
-def registerAll {σ} [DecidableEq σ] (sel : String → σ) : RouterSt σ → List Reg → Except RegErr (RouterSt σ)
+def registerAllWith {σ} [DecidableEq σ] (specOf : Reg → MethodSpec) (sel : String → σ) :
+    RouterSt σ → List Reg → Except RegErr (RouterSt σ)
   | st, [] => .ok st
   | st, r :: rs =>
-    match register sel st r with
-    | .ok st' => registerAll sel st' rs
+    match registerWith specOf sel st r with
+    | .ok st' => registerAllWith specOf sel st' rs
     | .error e => .error e
+
+/-- MODEL.  The code as it is: the contract entry carries the overriding name -/
+def register {σ} [DecidableEq σ] (sel : String → σ) (st : RouterSt σ) (r : Reg) :
+    Except RegErr (RouterSt σ) := registerWith Reg.registeredSpec sel st r
+
+def registerAll {σ} [DecidableEq σ] (sel : String → σ) (st : RouterSt σ) (rs : List Reg) :
+    Except RegErr (RouterSt σ) := registerAllWith Reg.registeredSpec sel st rs
+
+/-- the code before commit caa13a5 (`self.methods.append(method_call.method_spec())` unchanged):
+    kept as a regression witness only -/
+def registerAllOld {σ} [DecidableEq σ] (sel : String → σ) (st : RouterSt σ) (rs : List Reg) :
+    Except RegErr (RouterSt σ) := registerAllWith Reg.methodSpec sel st rs
 
 /-- `Router.contract_construct().methods` -/
 def contractOf {σ} (st : RouterSt σ) : List MethodSpec := st.methods
